@@ -250,7 +250,7 @@ func (P) Generate(g *hx.Gen) {
 	for k := 0; k < nC; k++ {
 		genStraddle(g)
 	}
-	nE := g.Pick(2, 8)
+	nE := g.Pick(1, 8)
 	for k := 0; k < nE; k++ {
 		genLongLived(g, k)
 	}
@@ -258,7 +258,7 @@ func (P) Generate(g *hx.Gen) {
 		genSvc(g)
 	}
 	for k := 0; k < g.Pick(1, 6); k++ {
-		genBoundary(g, k+1)
+		genBoundary(g, k)
 	}
 	nG := g.Pick(2, 14)
 	for k := 0; k < nG; k++ {
